@@ -862,6 +862,45 @@ pub fn generate(seed: u64, prop: &str) -> Scenario {
             let at = r2.idx(ops.len() + 1);
             ops.insert(at, Op::Restart);
         }
+    } else if prop == "C08" && Rng::new(seed ^ 0xC08_E90C).chance(1, 3) {
+        // planted shape "reorganisation between two branches that each crossed the same epoch boundary
+        // on their own": A and B fork below the boundary, both continue into the next epoch (same
+        // number, different epoch records), B overtakes A with a block that is NOT the first of its
+        // epoch; what the store holds as current epoch must be B's from that moment on, in
+        // particular when the process dies before B reaches its next epoch
+        let mut r2 = Rng::new(seed ^ 0xC08_E90D);
+        cfg.permanent_difficulty = true;
+        cfg.genesis_epoch_len = *r2.pick(&[3u64, 4, 5, 6]);
+        cfg.epoch_duration_target = cfg.genesis_epoch_len * 8;
+        let l = cfg.genesis_epoch_len as usize;
+        let f = l - r2.urange(1, 2); // fork point: one or two blocks below the boundary (block l opens epoch 1)
+        let na = l + r2.urange(1, l - 1); // A's tip: inside epoch 1, not its first block... or its first
+        let nb = na - f + 1; // B is one block longer than A
+        tree.clear();
+        for i in 0..na {
+            let mut rec = gen_recipe(&mut r2, i as u64 + 1, true);
+            rec.uncles = 0;
+            tree.push(TreeOp { parent: i, recipe: rec });
+        }
+        for j in 0..nb {
+            let mut rec = gen_recipe(&mut r2, 300 + j as u64, true);
+            rec.uncles = 0;
+            tree.push(TreeOp { parent: if j == 0 { f } else { na + j }, recipe: rec });
+        }
+        // sometimes B goes on into its next epoch
+        let more = if r2.chance(1, 2) { r2.urange(1, l) } else { 0 };
+        for j in 0..more {
+            let rec = gen_recipe(&mut r2, 600 + j as u64, true);
+            tree.push(TreeOp { parent: na + nb + j, recipe: rec });
+        }
+        ops.clear();
+        for b in 1..=(na + nb + more) {
+            ops.push(Op::Deliver { b });
+            if r2.chance(1, 2) {
+                ops.push(Op::Drain);
+            }
+        }
+        ops.push(Op::Drain);
     } else if prop == "C20" || (prop == "C02" && r.chance(1, 3)) {
         // clean restarts at arbitrary points
         let k = r.urange(1, 3);
